@@ -264,6 +264,12 @@ fn parse_hunk_header(line: &str) -> Option<ParsedHunkHeader> {
     }
 }
 
+/// Verification hook: the parsed hunk header as plain data (see src/verif_hooks/linenum.rs).
+#[cfg(dandavison_delta_verif)]
+pub fn verif_linenum_parse_hunk_header(line: &str) -> Option<(String, Vec<(usize, usize)>)> {
+    parse_hunk_header(line).map(|p| (p.code_fragment, p.line_numbers_and_hunk_lengths))
+}
+
 fn write_hunk_header_raw(
     painter: &mut Painter,
     line: &str,
